@@ -14,6 +14,8 @@
 (*   tdseq : one description object: a sequence of verify / submit and of   *)
 (*           changes through attributes, items, update(), in-place          *)
 (*           mutation, then a final verify / submit                         *)
+(*   hand  : a description handed to the raptor master (submit_workers /    *)
+(*           submit_tasks): the copies that travel from there               *)
 (*   fseq  : raw -> EncodeAll -> DecodeAll -> CallAll  (short-lived        *)
 (*           callables encoded one after the other, decoded afterwards)    *)
 (* Every initial state is one input; TLC enumerates the inputs and prints  *)
@@ -33,6 +35,7 @@ CONSTANTS Kinds,      \* subset of {"td", "pd", "slots", "func", "fseq"}: what I
           ShortFuncs, SeqLens,           \* short-lived callables, lengths of sequences
           XFuncs, XWheres, XArgIds,      \* payloads for another interpreter
           SeqBases, SeqOpIds, OpLens,    \* description sequences: start, steps, lengths
+          HandFams,                      \* families of descriptions handed to a master
           Emit        \* print every input (TRUE for the enumeration run)
 
 VARIABLES kind, phase, inp, val, keep
@@ -95,6 +98,11 @@ Init ==
      \/ /\ "xfunc" \in Kinds /\ kind = "xfunc"
         /\ inp \in [f : XFuncs, w : XWheres, a : XArgIds]
         /\ Out("xfunc", inp)
+     \/ /\ "hand" \in Kinds /\ kind = "hand"
+        /\ \E F \in HandFams : \E r \in Routes, m \in F.modes, u \in F.mpis, p \in [F.pres -> {"", "x"}],
+                                  i \in [F.ints -> F.ivals], s \in [F.strs -> F.svals] :
+             inp = [route |-> r, d |-> Apply(FamMember(F, m, u, p, i, s), RouteBg(r))]
+        /\ Out("hand", [route |-> inp.route, d |-> Diff(inp.d, Default)])
      \/ /\ "tdseq" \in Kinds /\ kind = "tdseq"
         /\ \E b \in SeqBases, fin \in {"verify", "submit"} :
              \E os \in UNION {[1 .. n -> SeqOpIds] : n \in OpLens} :
@@ -171,6 +179,12 @@ FsDecode == /\ kind = "fseq" /\ phase = "encoded"
 FsCall   == /\ kind = "fseq" /\ phase = "decoded"
             /\ phase' = "called" /\ UNCHANGED <<kind, inp, val, keep>>
 
+HdOver == /\ kind = "hand" /\ phase = "raw"
+          /\ IF Rejects(HandPre(inp.route, inp.d))
+             THEN phase' = "rejected" /\ val' = <<>>
+             ELSE phase' = "handed" /\ val' = HandCopies(inp.route, inp.d)
+          /\ UNCHANGED <<kind, inp, keep>>
+
 XfEncode == /\ kind = "xfunc" /\ phase = "raw"
             /\ phase' = "encoded" /\ val' = XEncode(val) /\ UNCHANGED <<kind, inp, keep>>
 XfDecode == /\ kind = "xfunc" /\ phase = "encoded"
@@ -191,14 +205,14 @@ Next == \/ TDRoundTrip \/ TDVerify \/ TDVerifyAgain
         \/ SlBuild \/ SlToNew \/ SlToOld
         \/ FnEncode \/ FnDecode \/ FnCall
         \/ FsEncode \/ FsDecode \/ FsCall
-        \/ XfEncode \/ XfDecode \/ SqStep
+        \/ XfEncode \/ XfDecode \/ SqStep \/ HdOver
 
 Spec == Init /\ [][Next]_vars
 
 (* ---- properties ---------------------------------------------------------- *)
-TypeOK == /\ kind \in {"td", "pd", "slots", "func", "fseq", "xfunc", "tdseq"}
+TypeOK == /\ kind \in {"td", "pd", "slots", "func", "fseq", "xfunc", "tdseq", "hand"}
           /\ phase \in {"raw", "raw_rt", "verified", "verified2", "rejected", "rejected2", "back",
-                        "built", "new", "old", "oldd", "seq", "seqdone", "seqrej", "encoded", "decoded", "called"}
+                        "built", "new", "old", "oldd", "seq", "seqdone", "seqrej", "handed", "encoded", "decoded", "called"}
           /\ kind = "td" => DOMAIN val = Attrs /\ DOMAIN inp = Attrs
           /\ kind = "pd" => DOMAIN val = PDAttrs
 
@@ -233,6 +247,14 @@ InvRemoteSame == kind = "xfunc" /\ phase = "called" => val = XOracle(inp)
 InvSeqNormal == kind = "tdseq" /\ phase = "seqdone" => Normal(val.d) /\ ~MustReject(keep)
 InvSeqRules  == kind = "tdseq" /\ phase = "seqrej"  => MustReject(keep)
 InvSeqAlias  == kind = "tdseq" /\ phase = "seqdone" => AliasKeepsOp(keep, val.d) /\ KeepsRest(keep, val.d)
+\* every copy that leaves a hand-over point is the same, normalised description
+InvCopiesAgree  == kind = "hand" /\ phase = "handed" =>
+                     \A i \in 1 .. Len(val) : val[i].d = val[1].d
+InvCopiesNormal == kind = "hand" /\ phase = "handed" =>
+                     \A i \in 1 .. Len(val) :
+                        /\ Normal(val[i].d)
+                        /\ AliasKeepsOp(HandPre(inp.route, inp.d), val[i].d)
+                        /\ KeepsRest(HandPre(inp.route, inp.d), val[i].d)
 \* callables encoded one after the other each decode to themselves
 InvSeqSame  == kind = "fseq" /\ phase = "called" => val = SeqOracle(inp)
 =============================================================================
